@@ -33,7 +33,7 @@ PROP = {
             "anchors": [(PS, ["check_path_expiry", "merge_new_paths_algo"])],
             "functions": ["check_path_expiry"],
             "harnesses": [
-                H("c06_expiry_classification", "B", bound="every u32 expiry; now and threshold < 2^33 s (year 2242), all nanoseconds", what="expiry classification == spec in integer nanoseconds", timeout=1800),
+                H("c06_expiry_classification", "B", tier="experimental", bound="every u32 expiry; now and threshold < 2^33 s (year 2242), all nanoseconds", what="expiry classification == spec in integer nanoseconds", timeout=1800),
             ],
         },
     ],
